@@ -82,8 +82,15 @@ static std::pair<long, int> run_history(const uint8_t* data, size_t size, bool c
     queues.push_back(q);
   };
   chunks("<policy context=\"default\">", pc.deflt, "  <allow user=\"*\"/>\n");
-  for (auto& g : pc.groups) chunks("<policy group=\"" + g.first + "\">", g.second, "");
-  for (auto& u : pc.users) chunks("<policy user=\"" + u.first + "\">", u.second, "");
+  // (entries for the same user or group form ONE context: their relative order is significant, so they share a queue)
+  auto by_name = [&](const std::vector<std::pair<std::string, std::vector<PRule>>>& v, const char* attr) {
+    std::vector<std::string> seen;
+    for (auto& e : v) { bool dup = false; for (auto& n : seen) if (n == e.first) dup = true; if (dup) continue; seen.push_back(e.first);
+      std::vector<PRule> all; for (auto& e2 : v) if (e2.first == e.first) all.insert(all.end(), e2.second.begin(), e2.second.end());
+      chunks(std::string("<policy ") + attr + "=\"" + e.first + "\">", all, ""); }
+  };
+  by_name(pc.groups, "group");
+  by_name(pc.users, "user");
   chunks("<policy context=\"mandatory\">", pc.mandatory, "");
   std::vector<Blk> seq; std::vector<size_t> pos(queues.size(), 0);
   bool shuffle = rare(f, 2);
